@@ -434,6 +434,8 @@ func checkC16(res *Result) {
 	}
 
 	checkC16NullDeletion(res, p)
+	res.Rule("C16-R10", "'answered 400 and changes nothing': the activity is stored and put in the outbox only after the callbacks ran — no callback dispatch can execute after addToOutbox")
+	checkOutboxAfterCallbacks(res, p, E, "C16-R10")
 	res.Rule("C16-R9", "an activity lacking a required object or target is answered 400: the sentinel a default callback returns travels unchanged through sideEffectActor.PostOutbox and baseActor.deliver to the comparison in PostOutboxScheme (shared with C10-R9)")
 	checkSentinelTransparent(res, p, E, "C16-R9", []string{"sideEffectActor.PostOutbox", "baseActor.deliver"})
 
